@@ -52,7 +52,7 @@ def run(tier, replay=None):
         hdr_at[i] = hdr
     for f in vlib.bad_to_failures(r, events):
         h = hdr_at.get(f["line"]) or {}
-        for k in ("asset", "mpd", "mode", "snr", "P", "cont", "tsbd", "ast", "cfg", "uniform", "probe"):
+        for k in ("asset", "mpd", "mode", "snr", "snropt", "subs", "P", "cont", "tsbd", "ast", "cfg", "uniform", "probe", "repeat"):
             f.setdefault(k, h.get(k))
         try:
             d = json.loads(f.get("detail") or "{}")
